@@ -43,11 +43,11 @@ Print Assumptions C11_rejected_never_commits.
    that is rejected, loses, or hits a storage error leaves the document (hence its channels, the access it
    grants and its attachment metadata, which all live in it) exactly as it was *)
 Theorem C11_document_changes_only_by_ack : forall fixed ac tab s e,
-  st (step fixed ac tab s e) <> st s ->
+  st (step fixed false ac tab s e) <> st s ->
   exists i w p, e = Write i /\ nth_error (ws s) i = Some w /\ w_prep w = Some p /\ w_out w = None /\
-    st (step fixed ac tab s e) = p_doc p /\ p_cas p = d_cas (st s) /\
-    nth_error (ws (step fixed ac tab s e)) i =
-      Some {| w_op := w_op w; w_attempt := w_attempt w; w_docseq := 0; w_unusedseqs := []; w_prep := None;
+    st (step fixed false ac tab s e) = p_doc p /\ p_cas p = d_cas (st s) /\
+    nth_error (ws (step fixed false ac tab s e)) i =
+      Some {| w_op := w_op w; w_attempt := w_attempt w; w_matchrev := w_matchrev w; w_docseq := 0; w_unusedseqs := []; w_prep := None;
               w_out := Some (OAck (p_rev p) (d_seq (p_doc p))) |}.
 Proof. exact store_changes_only_by_ack. Qed.
 Print Assumptions C11_document_changes_only_by_ack.
@@ -55,10 +55,10 @@ Print Assumptions C11_document_changes_only_by_ack.
 (* ... and gives back every sequence it had reserved: once all writers have finished, each reserved number is
    on a committed revision or published as unused, exactly once *)
 Theorem C11_failed_writes_return_sequences : forall ac tab ops sched,
-  all_finished (run true ac tab ops sched) ->
-  NoDup (committed_seqs (run true ac tab ops sched) ++ released (run true ac tab ops sched)) /\
-  forall x, 1 <= x <= last (run true ac tab ops sched) <->
-            (In x (committed_seqs (run true ac tab ops sched)) \/ In x (released (run true ac tab ops sched))).
+  all_finished (run true false ac tab ops sched) ->
+  NoDup (committed_seqs (run true false ac tab ops sched) ++ released (run true false ac tab ops sched)) /\
+  forall x, 1 <= x <= last (run true false ac tab ops sched) <->
+            (In x (committed_seqs (run true false ac tab ops sched)) \/ In x (released (run true false ac tab ops sched))).
 Proof. exact accounted_when_finished. Qed.
 Print Assumptions C11_failed_writes_return_sequences.
 
